@@ -70,9 +70,11 @@ theorem control_skeleton_terminates_partial {ρ : Type} (ev : Ctl.Evalr ρ) (st 
   Ctl.processNodes_terminates_partial ev st ks hks hst
 
 /-- **one loop activation runs its body at most limit + 1 times**: from iteration `M` on, a pass is
-    followed by the loop-limit error, whatever the tests say -/
+    followed by the loop-limit error, whatever the tests say. (`GoodD` / `nodesOkD`: since `apply_defaults`
+    is applied to `<config/>` elements too, `M` has to bound the limit literals of the stored defaults and of
+    the content of `<defaults>` elements as well - with `Good` / `nodesOk` alone the statement is false.) -/
 theorem loop_body_runs_bounded {ρ : Type} (ev : Ctl.Evalr ρ) (M f : Nat) (st : Ctl.St ρ) (ks : Ctl.Nodes)
-    c w u n v s i acc bb (hg : Ctl.Good M st) (hk : Ctl.nodesOk M ks = true) (hi : M ≤ i) :
+    c w u n v s i acc bb (hg : Ctl.GoodD M st) (hk : Ctl.nodesOkD M ks = true) (hi : M ≤ i) :
     Ctl.loopIter ev (f + 1) st ks c w u n v s i acc bb =
       Ctl.seq (Ctl.preTest ev st c w i) fun st go =>
         if !go then (st, .ok (acc, bb))
@@ -83,11 +85,11 @@ theorem loop_body_runs_bounded {ρ : Type} (ev : Ctl.Evalr ρ) (M f : Nat) (st :
 /-- **one activation of the retry loop makes at most pending + limit + 1 passes**: each pass ends in an
     error or strictly decreases pending + (M + 1 - idle passes) -/
 theorem retry_passes_decrease_measure {ρ : Type} (ev : Ctl.Evalr ρ) (M f : Nat) (st : Ctl.St ρ) (t : Ctl.Tag)
-    (ts : List Ctl.Tag) outs bb (hg : Ctl.Good M st) (hts : ∀ x ∈ t :: ts, Ctl.nodeOk M x.node = true) :
+    (ts : List Ctl.Tag) outs bb (hg : Ctl.GoodD M st) (hts : ∀ x ∈ t :: ts, Ctl.nodeOkD M x.node = true) :
     (∃ er, (Ctl.retry ev (f + 1) st (t :: ts) outs bb).2 = .error er) ∨
     ∃ st' ts' outs' bb', Ctl.retry ev (f + 1) st (t :: ts) outs bb = Ctl.retry ev f st' ts' outs' bb' ∧
-      Ctl.retryMeasure M st' ts' < Ctl.retryMeasure M st (t :: ts) ∧ Ctl.Good M st' ∧
-      ∀ x ∈ ts', Ctl.nodeOk M x.node = true :=
+      Ctl.retryMeasure M st' ts' < Ctl.retryMeasure M st (t :: ts) ∧ Ctl.GoodD M st' ∧
+      ∀ x ∈ ts', Ctl.nodeOkD M x.node = true :=
   Ctl.retry_measure_decreases ev M f st t ts outs bb hg hts
 
 /-- the hypotheses are satisfiable: a document with a variable, a `<config loop-limit="50"/>`, a forward
@@ -96,6 +98,11 @@ theorem control_skeleton_terminates_instance :
     Ctl.Good 1000 Ctl.TermExample.st0 ∧ Ctl.nodesOk 1000 Ctl.TermExample.doc = true ∧
     ∃ f, (Ctl.processNodes Ctl.simpleEvalr f Ctl.TermExample.st0 Ctl.TermExample.doc).2 ≠ .error .fuel :=
   ⟨Ctl.TermExample.st0_good, Ctl.TermExample.doc_ok, Ctl.TermExample.doc_terminates⟩
+
+/-- … and so are the hypotheses of the two quantitative statements (same document, same `M`) -/
+theorem quantitative_hypotheses_instance :
+    Ctl.GoodD 1000 Ctl.TermExample.st0 ∧ Ctl.nodesOkD 1000 Ctl.TermExample.doc = true :=
+  ⟨Ctl.TermExample.st0_goodD, Ctl.TermExample.doc_okD⟩
 
 /-- why the hypothesis on `<config>` is needed: a config TEMPLATE whose limit is an expression, reused in
     a `while` loop, is outside `nodesOk` for every M, and the model runs out of any fuel tried while the
@@ -308,5 +315,6 @@ end Svgdx.Props.C01
 #print axioms Svgdx.Props.C01.loop_body_runs_bounded
 #print axioms Svgdx.Props.C01.retry_passes_decrease_measure
 #print axioms Svgdx.Props.C01.control_skeleton_terminates_instance
+#print axioms Svgdx.Props.C01.quantitative_hypotheses_instance
 #print axioms Svgdx.Props.C01.config_template_defeats_the_limits
 #print axioms Svgdx.Ctl.NonTermination.doc_fuel
